@@ -80,13 +80,17 @@ def gen_scenario(rng):
     prefix = []
     if rng.random() < 0.3:
         prefix = [['bf', parents[0] + '/pre', 'Fok', {'catch': True}]]
+    if rng.random() < 0.25:
+        # the build fails after the parallel part: every thread's backups must be restored
+        suffix = suffix + [['raise', 'root']]
     root = prefix + [['par', threads]] + suffix
     # a different root for the previous build: leaves stale dirs/outputs in the same parents
     stale = [['bf', '%s/old%d' % (p, i), 'Fok', {'catch': True, 'args': [i]}] for i, p in enumerate(parents)]
     if rng.random() < 0.5:
         stale.append(['bf', parents[0] + '/f0_0', 'Fh', {'catch': True}])   # same path, other function
     program = {'funcs': funcs, 'roots': [root, stale]}
-    prior = rng.choice(['none', 'same', 'stale', 'stale+foreign', 'foreign'])
+    prior = rng.choice(['none', 'same', 'stale', 'stale+foreign', 'foreign', 'foreign-at-targets',
+                        'same+foreign-at-targets'])
     return program, prior, T, parents
 
 
@@ -95,9 +99,19 @@ def setup_world(w, program, prior, parents, rng):
     w.ext_write('in1', b'input one')
     if prior in ('foreign', 'stale+foreign'):
         w.ext_write(parents[0] + '/zz_foreign', b'foreign')
+    if prior.startswith('same'):
+        body = [st for st in program['roots'][0] if st[0] != 'raise']
+        sr = w.build(program, body, {}, label='prior', threads=False)
+        if sr.divs:
+            return False
+    if 'foreign-at-targets' in prior:
+        # every thread overwrites a foreign file (or a tampered output): concurrent backups
+        from ..prog import reachable_targets
+        for i, t in enumerate(sorted(set(reachable_targets(program, program['roots'][0])))):
+            w.ext_write(t, ('foreign at target %d' % i).encode())
+        return True
     if prior == 'same':
-        sr = w.build(program, program['roots'][0], {}, label=0, threads=False)
-        return not sr.divs
+        return True
     if prior in ('stale', 'stale+foreign'):
         sr = w.build(program, program['roots'][1], {}, label=1, threads=False)
         return not sr.divs
